@@ -1,27 +1,5 @@
 // ChangeSet (src/changeset.rs). Its inner storage is the concrete DenseVecStorage<T>; here it is an opaque
 // implementor of the trait-level storage contract (its conformance is the bounded Kani part of C04).
-#[verifier::external_body]
-#[verifier::reject_recursive_types(T)]
-pub struct DenseVecStorage<T> { x: core::marker::PhantomData<T> }
-impl<T> UnprotectedStorage<T> for DenseVecStorage<T> {
-    uninterp spec fn has(&self, id: Index) -> bool;
-    uninterp spec fn val(&self, id: Index) -> T;
-    open spec fn log(&self) -> Seq<ComponentEvent> { Seq::empty() }
-    open spec fn ev_insert(&self, id: Index) -> Seq<ComponentEvent> { Seq::empty() }
-    open spec fn ev_remove(&self, id: Index) -> Seq<ComponentEvent> { Seq::empty() }
-    open spec fn ev_get_mut(&self, id: Index) -> Seq<ComponentEvent> { Seq::empty() }
-    #[verifier::external_body]
-    unsafe fn clean<B>(&mut self, has: B) where B: BitSetLike { unimplemented!() }
-    #[verifier::external_body]
-    unsafe fn get(&self, id: Index) -> (r: &T) { unimplemented!() }
-    #[verifier::external_body]
-    unsafe fn get_mut(&mut self, id: Index) -> (r: &mut T) { unimplemented!() }
-    #[verifier::external_body]
-    unsafe fn insert(&mut self, id: Index, value: T) { unimplemented!() }
-    #[verifier::external_body]
-    unsafe fn remove(&mut self, id: Index) -> (r: T) { unimplemented!() }
-}
-
 // stand-in for std::ops::AddAssign on the generic amount type: `a += b` replaces a by add_spec(a, b)
 // (what "combination in arrival order" means: add_spec need not be commutative)
 pub trait AddAssign: Sized {
